@@ -82,6 +82,35 @@ void apply_set(SolverOpts& o, const std::string& key, const Value& v)
     else if (key == "reduction") o.reduction = v.as_double();
 }
 
+// what a user does between two solves: call the ONE setter of the option that changes (re-applying every option would
+// overwrite, and so hide, option members that a previous setup()/solve() modified behind the user's back)
+void apply_key(GMGPolar& s, const std::string& key, const SolverOpts& o)
+{
+    if (key == "cycle") s.multigridCycle((MultigridCycleType)o.cycle);
+    else if (key == "pre") s.preSmoothingSteps(o.pre);
+    else if (key == "post") s.postSmoothingSteps(o.post);
+    else if (key == "max_iterations") s.maxIterations(o.max_iterations);
+    else if (key == "norm_type") s.residualNormType((ResidualNormType)o.norm_type);
+    else if (key == "abs_tol") s.absoluteTolerance(o.abs_tol);
+    else if (key == "rel_tol") s.relativeTolerance(o.rel_tol);
+    else if (key == "fmg_iterations") s.FMG_iterations(o.fmg_iterations);
+    else if (key == "fmg_cycle") s.FMG_cycle((MultigridCycleType)o.fmg_cycle);
+    else if (key == "extrapolation") s.extrapolation((ExtrapolationType)o.extrapolation);
+    else if (key == "fmg") s.FMG(o.fmg);
+    else if (key == "divideBy2") s.divideBy2(o.divideBy2);
+    else if (key == "nr_exp") s.nr_exp(o.nr_exp);
+    else if (key == "stencil") {
+        s.stencilDistributionMethod(o.stencil ? StencilDistributionMethod::CPU_GIVE : StencilDistributionMethod::CPU_TAKE);
+        s.cacheDensityProfileCoefficients(o.cache_coeff);
+        s.cacheDomainGeometry(o.cache_geo);
+    }
+    else if (key == "threads") s.maxOpenMPThreads(o.threads);
+    else if (key == "dirbc") s.DirBC_Interior(o.dirbc);
+    else if (key == "max_levels") s.maxLevels(o.max_levels);
+    else if (key == "reduction") s.threadReductionFactor(o.reduction);
+    else apply_opts(s, o);
+}
+
 Value gen(uint64_t seed, const std::string& tier)
 {
     Rng g(sim::mix(seed, 0xC13));
@@ -236,7 +265,7 @@ void run(const Value& plan, Result& r)
         const std::string kind = op.at("op").as_str();
         if (kind == "set") {
             apply_set(cur, op.at("key").as_str(), op.at("val"));
-            apply_opts(*s, cur);
+            apply_key(*s, op.at("key").as_str(), cur);
             path += "set(" + op.at("key").as_str() + ");";
             continue;
         }
@@ -272,7 +301,7 @@ void run(const Value& plan, Result& r)
             }
             if (!threw)
                 r.fail("C13.invalid_setup_not_rejected", "take without caches was accepted by setup()");
-            apply_opts(*s, cur);
+            apply_key(*s, "stencil", cur);
             set_up = false;
             r.probe("rejected_setup");
             path += "setup_rejected;";
